@@ -233,8 +233,8 @@ func cmdCheck(args []string) int {
 	cov := map[string]any{
 		"obligations":              total,
 		"discharged":               discharged,
-		"checker_cmd":              fmt.Sprintf("bin/fvc check %s %s  (VC generation over go/ssa of /repo's working tree with -tags verif; z3 5.1.0 / cvc5 1.0.3 / z3 4.8.12 portfolio, %ds per query)", prop, tier, cfg.Timeout),
-		"trusted_base":             []string{"go/packages + go/ssa (x/tools v0.29.0) source-to-SSA translation", "fvc SSA-to-SMT encoder (/verif/engine; semantic model and dropped features in DESIGN §4)", "SMT solvers z3 5.1.0, cvc5 1.0.3, z3 4.8.12", "assumed contracts and frame assumptions listed under assumptions"},
+		"checker_cmd":              fmt.Sprintf("bin/fvc check %s %s  (VC generation over go/ssa of /repo's working tree with -tags verif; z3 5.1.0 + cvc5 1.0.3 portfolio, %ds per query)", prop, tier, cfg.Timeout),
+		"trusted_base":             []string{"go/packages + go/ssa (x/tools v0.29.0) source-to-SSA translation", "fvc SSA-to-SMT encoder (/verif/engine; semantic model and dropped features in DESIGN §4)", "SMT solvers z3 5.1.0 and cvc5 1.0.3 (z3 4.8.12 and z3 5.1.0 with arith.solver=2 are excluded: unstable unsat answers)", "assumed contracts and frame assumptions listed under assumptions"},
 		"functions_under_contract": out.Functions,
 		"per_solver":               perSolver,
 		"solver_time_s":            solverTime,
